@@ -36,6 +36,21 @@ Calibration
 * In a tuple/dict passed to rechunk, None / a missing axis mean "keep the current chunks" (in
   normalize_chunks they mean the full axis); the harness normaliser follows the rechunk docstring.
 
+Parameter audit (part "rx", own random stream interleaved at fixed positions; counters rx_<family> with floors):
+  unknown    a boolean mask along one axis makes its chunk sizes unknown (NaN); the other axes are rechunked by dict / tuple /
+             list targets with None / missing / the NaN tuple on the unknown axis: chunks of the unknown axis unchanged, values and
+             blocks (against the per-chunk mask counts) equal; plan_rechunk must return the single stage.  A target that
+             changes the unknown axis is documented to raise ValueError ("Chunks must be unchanging along dimensions with
+             missing values") -> counted `unknown_axis_change_refused`.
+  big        axes of 300-1200 cells with chunks > 255 elements and irregular breakpoints (1-d, 2-d)
+  nd4        4-d arrays with pairwise different lengths, thresholds / limits that give multi-stage plans
+  chain      x.rechunk(a).rechunk(b)[.rechunk(c)]: every stage has its requested chunks and values when all stages are computed
+             in one graph ("keep" entries refer to the previous stage)
+  zerochunk  zero-width chunks inside a non-empty axis in the source and / or the explicit target (`explicit_dims_with_zero_chunks`)
+  list       list targets with a None entry (None = keep that axis' chunks, on an axis that is split)
+  floatbsl   block_size_limit given as a float; cfglimit: the limit given through config array.chunk-size instead of the keyword
+  strdtype   dtypes U3 / S2 / object;  default: x.rechunk() without a chunks argument (= "auto")
+
 Sibling facet (vf/mon/siblings.py): every case is also built a second time with ONE result-relevant parameter changed
 (the same source rechunked to another target (values compared block by block: the block structure is the result)).
 The two lazily built collections must not share output keys unless their stand-alone values are equal (label
@@ -83,6 +98,11 @@ FLOORS = {"quick": {"evaluations": 5500, "distinct_nontrivial": 3500,
 # quick floor x (thorough / quick stream size) x 0.6.  A run in which the facet never executed is INCONCLUSIVE.
 FLOORS["quick"]["counters"].update({"siblings_built": 1700, "siblings_computed_together": 260, "siblings_with_different_values": 210})
 FLOORS["thorough"]["counters"].update({"siblings_built": 9800, "siblings_computed_together": 1500, "siblings_with_different_values": 1200})
+# parameter-audit families (part "rx"): ~40-45 % of the quick counts on the unchanged tree; thorough = quick x 8 (stream ratio 9.4)
+_RXF = {"rx_compared": 600, "rx_blocks_checked": 600, "rx_unknown": 95, "unknown_axis_change_refused": 18, "rx_big": 36, "rx_nd4": 40,
+        "rx_chain": 78, "rx_zerochunk": 78, "rx_list": 78, "rx_floatbsl": 40, "rx_cfglimit": 36, "rx_strdtype": 42, "rx_default": 43}
+FLOORS["quick"]["counters"].update(_RXF)
+FLOORS["thorough"]["counters"].update({k: v * 8 for k, v in _RXF.items()})
 EXHAUSTIVE_SPACE = {"quick": "rechunk: all (source, target) chunking pairs of shape (5,) (16x16) and of shape (3,2) (8x8), method tasks",
                     "thorough": "rechunk: all (source, target) chunking pairs of shapes (5,), (3,2) and (4,3) (32x32), method tasks"}
 CLAIM = ("Every call of the real normalize_chunks made in the check's processes (direct generator and internal callers of "
@@ -670,6 +690,133 @@ def _rc_random(rng):
             "flav": flav}
 
 
+# ------------------------------------------------------------------------------------------------
+# parameter-audit families (part "rx"): input classes the random rechunk part above never produced.  They come from
+# their OWN random stream and are interleaved at fixed positions, so the older stream is unchanged.
+RX_FLAVS = ("unknown", "unknown", "unknown", "big", "nd4", "chain", "chain", "zerochunk", "zerochunk",
+            "list", "list", "floatbsl", "cfglimit", "strdtype", "default")
+RX_FEATURE = {"unknown": "unknown-chunks", "big": "chunk>255", "nd4": "4-d", "chain": "chained", "zerochunk": "zero-width-chunk",
+              "list": "list-spec", "floatbsl": "float-limit", "cfglimit": "config-limit", "strdtype": "dtype=str|object",
+              "default": "no-chunks-argument"}
+
+
+def _with_zero_chunks(rng, comp):
+    c = list(comp)
+    for _ in range(rng.randint(1, 2)):
+        c.insert(rng.randint(0, len(c)), 0)
+    return tuple(c)
+
+
+def _known_dim(rng, n):
+    while True:
+        d = _dim_spec(rng, n, allow_auto=False)
+        if d is not None:
+            return d
+
+
+def _rx_case(rng):
+    flav = rng.choice(RX_FLAVS)
+    case = {"part": "rx", "flav": flav, "seed": rng.randrange(2 ** 31), "dtype": rng.choice(("int64", "float64", "int8")),
+            "threshold": rng.choice((None, None, 1, 2, 0.5)), "bsl": rng.choice((None, None, 8, 64, 256)),
+            "method": rng.choice((None, "tasks")), "api": rng.choice(("method", "function")), "cfgsize": None}
+    if flav == "unknown":
+        nd = rng.choice((1, 2, 2, 3))
+        shape = tuple(rng.randint(2, 8) for _ in range(nd))
+        uax = rng.randrange(nd)
+        src = A.rand_chunks(rng, shape)
+        form = rng.choice(("dict", "dict", "tuple", "list", "explicit", "refuse"))
+        if form == "dict":
+            items = [[i - nd if rng.random() < 0.2 else i, _known_dim(rng, n)] for i, n in enumerate(shape)
+                     if i != uax and rng.random() < 0.8]
+            if rng.random() < 0.3:
+                items.append([uax, None])
+            tgt = {"D": items}
+        elif form in ("tuple", "list"):
+            tgt = {"T" if form == "tuple" else "L": [None if i == uax else _dim_spec(rng, n, allow_auto=False)
+                                                     for i, n in enumerate(shape)]}
+        else:
+            tgt = {"T": [("keepnan" if form == "explicit" else _enc_comp(src[i])) if i == uax else _enc_comp(A.rand_comp(rng, n))
+                         for i, n in enumerate(shape)]}
+        case.update(shape=list(shape), src=[list(c) for c in src], tgt=tgt, uax=uax, form=form)
+    elif flav == "big":
+        n = rng.choice((300, 511, 600, 777, 1024, 1200))
+        shape, long_ax = (n,), 0
+        if rng.random() < 0.5:
+            m = rng.randint(1, 12)
+            long_ax = rng.randrange(2)
+            shape = (n, m) if long_ax == 0 else (m, n)
+        src, tgt = [], []
+        for i, k in enumerate(shape):
+            if i == long_ax:
+                c = rng.choice((256, 300, 257, 1000, 97))
+                src.append(_long_comp(rng, k) if rng.random() < 0.6 else tuple([c] * (k // c) + ([k % c] if k % c else [])))
+                u = rng.random()
+                tgt.append(_enc_comp(_long_comp(rng, k)) if u < 0.6 else rng.choice((7 if len(shape) == 1 else 60, 100, 256, 257, 400, -1)))
+            else:
+                src.append(A.rand_comp(rng, k, rng.choice(("one", "two", "regular", "irregular"))))
+                tgt.append(_enc_comp(A.rand_comp(rng, k, rng.choice(("one", "two", "regular", "irregular")))))
+        case.update(shape=list(shape), src=[list(c) for c in src], tgt={"T": tgt})
+    elif flav == "nd4":
+        shape = tuple(rng.sample((1, 2, 3, 4, 5), 4))
+        src, t = A.rand_chunks(rng, shape), A.rand_chunks(rng, shape)
+        tgt = {"T": [_enc_comp(c) for c in t]} if rng.random() < 0.7 else {"D": [[i, _enc_comp(c)] for i, c in enumerate(t) if rng.random() < 0.7]}
+        case.update(shape=list(shape), src=[list(c) for c in src], tgt=tgt, threshold=rng.choice((None, 1, 1, 2, 0.5)),
+                    bsl=rng.choice((None, 8, 16, 64, 256)))
+    elif flav == "chain":
+        shape = A.rand_shape(rng, maxnd=3, maxlen=9, minnd=1, allow_zero=False)
+        src = A.rand_chunks(rng, shape)
+        tg = []
+        for _ in range(rng.choice((2, 2, 3))):
+            u = rng.random()
+            if u < 0.5:
+                tg.append({"T": [_enc_comp(A.rand_comp(rng, n)) for n in shape]})
+            elif u < 0.75:
+                tg.append({"T": [_dim_spec(rng, n, allow_auto=False) for n in shape]})
+            else:
+                tg.append({"D": [[i, _dim_spec(rng, n, allow_auto=False)] for i, n in enumerate(shape) if rng.random() < 0.6]})
+        case.update(shape=list(shape), src=[list(c) for c in src], tgt=tg[-1], chain=tg[:-1])
+    elif flav == "zerochunk":
+        shape = A.rand_shape(rng, maxnd=2, maxlen=8, minnd=1, allow_zero=False)
+        src, t = list(A.rand_chunks(rng, shape)), list(A.rand_chunks(rng, shape))
+        where = rng.choice(("src", "tgt", "both"))
+        for i in range(len(shape)):
+            if where in ("src", "both") and (rng.random() < 0.7 or i == 0):
+                src[i] = _with_zero_chunks(rng, src[i])
+            if where in ("tgt", "both") and (rng.random() < 0.7 or i == 0):
+                t[i] = _with_zero_chunks(rng, t[i])
+        case.update(shape=list(shape), src=[list(c) for c in src], tgt={"T": [_enc_comp(c) for c in t]}, where=where)
+    else:
+        shape = A.rand_shape(rng, maxnd=3, maxlen=9, minnd=1, allow_zero=False)
+        src = list(A.rand_chunks(rng, shape))
+        tgt = {"T": [_enc_comp(A.rand_comp(rng, n)) for n in shape]}
+        if flav == "list":
+            dims = [_dim_spec(rng, n, allow_auto=False) for n in shape]
+            a = rng.randrange(len(shape))
+            dims[a] = None                     # None inside a list = keep that axis' chunks ...
+            if shape[a] >= 2:                  # ... which must be distinguishable from "the whole axis"
+                src[a] = A.rand_comp(rng, shape[a], rng.choice(("two", "ones", "irregular")))
+            tgt = {"L": dims}
+        elif flav == "floatbsl":
+            case["bsl"] = rng.choice((8.0, 64.0, 256.0, 1e3, 100.5))
+            if rng.random() < 0.5:
+                tgt = rng.choice(("auto", {"D": [[rng.randrange(len(shape)), "auto"]]}))
+        elif flav == "cfglimit":
+            case["bsl"] = None
+            case["cfgsize"] = rng.choice(("64B", "256 B", 128, "1KiB", 16))
+            if rng.random() < 0.5:
+                tgt = rng.choice(("auto", {"D": [[rng.randrange(len(shape)), "auto"]]}))
+        elif flav == "strdtype":
+            case["dtype"] = rng.choice(("U3", "S2", "object"))
+            if rng.random() < 0.3:
+                tgt = rng.randint(1, 4)
+        else:
+            tgt = "auto"
+            case["api"] = "default"
+            case["bsl"] = rng.choice((None, 16, 64, 256))
+        case.update(shape=list(shape), src=[list(c) for c in src], tgt=tgt)
+    return case
+
+
 WL_OPS = ["from_array", "creation", "rechunk", "reshape", "concatenate", "stack", "pad", "tile", "broadcast_to", "arange",
           "map_blocks", "random", "overlap", "asarray_like"]
 
@@ -689,7 +836,11 @@ def cases(tier, seed):
     total = n_nc + n_rc + n_wl
     # interleave the three parts so that a truncated run still saw all of them
     left = {"nc": n_nc, "rc": n_rc, "wl": n_wl}
-    for _ in range(total):
+    rx = random.Random(seed * 9109 + 2323)
+    every = 8 if tier == "quick" else 10
+    for k in range(total):
+        if k % every == every - 1:
+            yield _rx_case(rx)
         r = rng.randrange(sum(left.values()))
         part = "nc" if r < left["nc"] else ("rc" if r < left["nc"] + left["rc"] else "wl")
         left[part] -= 1
@@ -718,6 +869,8 @@ def run_case(case, ctx):
             _run_nc(case, ctx)
         elif part == "rc":
             _run_rc(case, ctx)
+        elif part == "rx":
+            _run_rx(case, ctx)
         else:
             _run_wl(case, ctx)
 
@@ -932,6 +1085,163 @@ def _run_rc(case, ctx):
                 describe={"target": repr(tgt2)[:80]})
     with _LOCK:
         _ST["failures"] = []      # whatever the contract recorded for the sibling's own calls is not this case's business
+
+
+def _rx_data(seed, shape, dtype):
+    if dtype in ("U3", "S2", "object"):
+        r = np.random.default_rng(seed)
+        words = np.array(["", "a", "bc", "def", "g", "hi"], dtype="U3")
+        a = words[r.integers(0, len(words), int(np.prod(shape)))].reshape(shape)
+        return a.astype(object) if dtype == "object" else a.astype(dtype)
+    return A.rand_data(seed, shape, dtype)
+
+
+def _nan_same(g, e):
+    return len(g) == len(e) and all((_isnan(a) and _isnan(b)) or a == b for a, b in zip(g, e))
+
+
+def _run_rx(case, ctx):
+    """Parameter-audit families of the rechunk part: unknown chunk sizes, chunks > 255 elements, 4-d, chained rechunks,
+    zero-width chunks inside a non-empty axis, list targets with None entries, float / configured byte limits, str and
+    object dtypes, rechunk() without a chunks argument."""
+    import itertools
+
+    import dask
+    import dask.array as da
+    from dask.array.rechunk import plan_rechunk
+
+    flav = case["flav"]
+    shape = tuple(case["shape"])
+    src = A.chunks_of_desc(case["src"])
+    x = _rx_data(case["seed"], shape, case["dtype"])
+    thr, bsl, method = case["threshold"], case["bsl"], case["method"]
+    ctx.sig = {k: v for k, v in case.items() if k != "seed"}
+    ctx.op("rx:" + flav)
+    feat = RX_FEATURE[flav]
+    kw = {"threshold": thr, "block_size_limit": bsl, "method": method}
+    cfg = {} if case["cfgsize"] is None else {"array.chunk-size": case["cfgsize"]}
+    uax, counts, expected = None, None, x
+    stages = None
+    with _Watch(ctx) as w:
+        try:
+            dx = da.from_array(x, chunks=src)
+            cur = tuple(src)
+            if flav == "unknown":
+                uax = case["uax"]
+                mask = np.random.default_rng(case["seed"] ^ 0x55).random(shape[uax]) < 0.6
+                dm = da.from_array(mask, chunks=(src[uax],))
+                sel = tuple([slice(None)] * uax)
+                dx = dx[sel + (dm,)]           # boolean mask along one axis: its chunk sizes are unknown from here on
+                expected = x[sel + (mask,)]
+                offs = np.concatenate([[0], np.cumsum(src[uax])]).astype(int)
+                counts = tuple(int(mask[offs[i]:offs[i + 1]].sum()) for i in range(len(src[uax])))
+                if not all(_isnan(c) for c in dx.chunks[uax]):
+                    ctx.reject("masking did not produce unknown chunk sizes")
+                    return
+                cur = tuple(dx.chunks)
+        except Exception as e:  # noqa: BLE001
+            ctx.exception(e, prefix="rechunk:source&" + feat)
+            return
+        targets = []
+        for enc in list(case.get("chain", [])) + [case["tgt"]]:
+            t = dec(enc)
+            if isinstance(t, tuple) and any(isinstance(c, str) and c == "keepnan" for c in t):
+                t = tuple(dx.chunks[uax] if (isinstance(c, str) and c == "keepnan") else c for c in t)
+            targets.append(t)
+        exps = []
+        for t in targets:
+            e = _expected_rechunk(t, shape, cur)
+            exps.append(e)
+            cur = tuple(c if c is not None else None for c in e)
+            if any(c is None for c in cur):
+                break                           # (auto dimensions only occur in single-stage families)
+        explicit = all(c is not None for c in exps[-1])
+        ctx.nontrivial = A.has_split(src) or any(c is None or len(c) >= 2 for c in exps[-1])
+        results = []
+        try:
+            with dask.config.set(cfg):
+                if explicit and len(targets) == 1 and not (flav == "unknown" and case["form"] == "refuse"):
+                    try:
+                        plan = plan_rechunk(dx.chunks, tuple(exps[-1]), dx.dtype.itemsize, thr, bsl)
+                        stages = len(plan)
+                        ctx.count("plans_inspected")
+                        if stages > 1:
+                            ctx.count("multistage_plans")
+                            ctx.distinct("plan_stage_counts", stages)
+                        if len(plan[-1]) != len(exps[-1]) or not all(_nan_same(a, b) for a, b in zip(plan[-1], exps[-1])):
+                            ctx.violation("plan_rechunk:%s:last-stage-is-not-the-target" % feat, "plan %r for target %r" % (plan, exps[-1]))
+                        if flav == "unknown" and stages != 1:
+                            ctx.violation("plan_rechunk:%s:intermediate-stage-with-unknown-sizes" % feat, "plan %r" % (plan,))
+                    except Exception as e:  # noqa: BLE001
+                        ctx.exception(e, prefix="plan_rechunk:" + feat)
+                r = dx
+                for t in targets:
+                    if case["api"] == "default":
+                        r = r.rechunk(**kw)
+                    elif case["api"] == "method":
+                        r = r.rechunk(t, **kw)
+                    else:
+                        r = da.rechunk(r, t, **kw)
+                    results.append(r)
+                vals = dask.compute(*results, scheduler="sync")
+        except NotImplementedError as e:
+            ctx.unsupported(str(e))
+            return
+        except Exception as e:  # noqa: BLE001
+            if (flav == "unknown" and case["form"] == "refuse" and isinstance(e, ValueError)
+                    and "unchanging along dimensions with missing values" in str(e)):
+                ctx.count("unknown_axis_change_refused")      # documented: an axis with unknown sizes cannot be rechunked
+                return
+            if getattr(e, "_c23_seen", False) or w.failed():
+                ctx.count("rechunk_stopped_by_normalize_chunks")
+                if not getattr(e, "_c23_valid", True):
+                    ctx.reject("invalid target spec: %s" % e)
+                return
+            ctx.exception(e, prefix="rechunk:" + feat, method=method, threshold=thr, block_size_limit=bsl, target=repr(targets)[:120])
+            return
+    ctx.count("rx_compared")
+    ctx.count("rx_" + flav)
+    lab = "rechunk:%s%s:" % (feat, "&multi-stage" if stages is not None and stages > 1 else "")
+    for k, (r, rv, exp) in enumerate(zip(results, vals, exps)):
+        got = tuple(tuple(c) for c in r.chunks)
+        if len(got) != len(shape):
+            ctx.violation(lab + "chunks-dimension-count", "chunks %r for shape %r" % (got, shape))
+            return
+        for ax, (g, e, n) in enumerate(zip(got, exp, shape)):
+            if ax == uax:
+                if not (all(_isnan(v) for v in g) and len(g) == len(counts)):
+                    ctx.violation(lab + "unknown-axis-chunks-changed", "axis %d: %r, source had %d unknown chunks" % (ax, g, len(counts)))
+            elif len(g) == 0 or sum(g) != n or any(v < 0 for v in g):
+                ctx.violation(lab + "chunks-not-a-partition-of-the-axis", "axis %d: %r for length %d" % (ax, g, n))
+            elif e is not None and g != e:
+                ctx.violation(lab + "chunks-differ-from-requested", "stage %d axis %d: got %r, requested %r (target %r)" % (k, ax, g, e, targets[k]))
+        m = compare_arrays(rv, expected, exact=True)
+        if m:
+            ctx.violation(lab + m[0], "stage %d: %s" % (k, m[1]), chunks=repr(got), source=repr(src))
+        m = lazy_meta_mismatch(r, rv)
+        if m:
+            ctx.violation(lab + m[0], m[1])
+    r = results[-1]
+    got = tuple(tuple(c) for c in r.chunks)
+    real = tuple(counts if ax == uax else g for ax, g in enumerate(got))
+    if math.prod(len(c) for c in got) <= 150 and all(not _isnan(v) for c in real for v in c):
+        try:
+            (blocks,) = dask.compute(r.to_delayed().ravel().tolist(), scheduler="sync")
+        except Exception as e:  # noqa: BLE001
+            ctx.exception(e, prefix=lab + "blocks")
+            return
+        ctx.count("rx_blocks_checked")
+        offs = [np.concatenate([[0], np.cumsum(c)]).astype(int) for c in real]
+        for idx, b in zip(itertools.product(*[range(len(c)) for c in real]), blocks):
+            want = tuple(real[a][i] for a, i in enumerate(idx))
+            if np.shape(b) != want:
+                ctx.violation(lab + "block-shape-differs-from-chunks", "block %r has shape %r, expected %r" % (idx, np.shape(b), want))
+                break
+            sl = tuple(slice(offs[a][i], offs[a][i + 1]) for a, i in enumerate(idx))
+            if compare_arrays(np.asarray(b), expected[sl], exact=True):
+                ctx.violation(lab + "block-values", "block %r differs from the source slice %r" % (idx, sl))
+                break
+    ctx.sample = {"family": flav, "source": repr(src)[:80], "target": repr(targets)[:100], "result": repr(got)[:100], "stages": stages}
 
 
 def _run_wl(case, ctx):
